@@ -32,6 +32,9 @@ def check(model, R, tier):
             R.incomplete_at('C05.DELEGATE', q, why)
     check_delegate(model, R, ops)
     check_axis(model, R, 'C05', scope='forward')
+    from sa import rules_hygiene as _H
+    _H.check_dim_tests(model, R, 'C05', scope='forward')
+    _H.check_squeeze_all(model, R, 'C05')
     check_reject(model, R, ops)
     check_operators(model, R)
     check_ctor_factory(model, R)
